@@ -31,7 +31,6 @@ ASSUMPTIONS = ["language_level=3, default directives, C (not C++) output", "Pyth
 # repairs in the tree under test (see proposed_fixes/C43-*.md); env overrides for patched worktrees
 FX_IMAG = os.environ.get("C43_FX_IMAG", "0") == "1"        # imagconst accepts every digitpart (0_7j)
 FX_INTCHK = os.environ.get("C43_FX_INTCHK", "0") == "1"    # p_int_literal reports undecodable integer literals
-FX_DIRCRASH = os.environ.get("C43_FX_DIR", "0") == "1"      # header directive crashes repaired
 
 # ------------------------------------------------------------------------------------------------
 # documented / tested deliberate rejections: (regex on the error message, why)
@@ -775,12 +774,10 @@ def run_programs(ctx):
 
 
 def run(ctx):
-    if os.environ.get("C43_DEV") != "programs":
-        run_tokens(ctx)
-    if os.environ.get("C43_DEV") != "tokens":
-        run_programs(ctx)
-    if os.environ.get("C43_DEV"):
-        with open("/tmp/c43/fails.json", "w") as f:
+    run_tokens(ctx)
+    run_programs(ctx)
+    if os.environ.get("C43_DUMP_FAILS"):       # development aid: every failure of this run, uncapped by class
+        with open(os.environ["C43_DUMP_FAILS"], "w") as f:
             json.dump({"fails": ctx.prop_failures, "corr": ctx.corr_breaks, "notes": ctx.notes}, f)
     ctx.extra["allowlist"] = [p for p, _ in ALLOW] + ["PEP 695 syntax (documented unsupported)"]
     ctx.extra["fix_flags"] = {"FX_IMAG": FX_IMAG, "FX_INTCHK": FX_INTCHK}
